@@ -193,7 +193,7 @@ func build(sc scenario) *built {
 func runScenario(t *testing.T, r *vp.Recorder, sc scenario, thorough bool) {
 	// genuine length of block k
 	var glen int
-	synctest.Test(t, func(t *testing.T) {
+	syncfx.Bubble(t, func(t *testing.T) {
 		b := build(sc)
 		glen = len(b.blocks[sc.k])
 		b.w.Close()
@@ -214,7 +214,7 @@ func runScenario(t *testing.T, r *vp.Recorder, sc scenario, thorough bool) {
 			continue
 		}
 		r.Eval(key, true)
-		synctest.Test(t, func(t *testing.T) { oneRun(r, key, sc, tm) })
+		syncfx.Bubble(t, func(t *testing.T) { oneRun(r, key, sc, tm) })
 	}
 }
 
